@@ -1660,7 +1660,8 @@ def apply_sustain_control_changes(note_sequence, sustain_control_number=64):
   for instrument in active_notes.values():
     for note in instrument:
       note.end_time = time
-      sequence.total_time = time
+      if time > sequence.total_time:
+        sequence.total_time = time
 
   return sequence
 
